@@ -203,6 +203,10 @@ var vStrBodies = []struct {
 	{`abc`, "abc", true}, {``, "", true}, {`a\nb`, "a\nb", true}, {`a\tb`, "a\tb", true}, {`a\\b`, `a\b`, true}, {`a\"b`, `a"b`, true},
 	{`\x41`, "A", true}, {`é`, "é", true}, {`日本`, "日本", true}, {`a\db`, "", false}, {`\q`, "", false}, {`a\ b`, "", false}, {`\x4`, "", false}, {`it's`, "it's", true},
 	{`\r\n`, "\r\n", true}, {`\0`, "", false}, {`\101`, "A", true},
+	// an escaped backslash followed by a letter that is an escape letter somewhere (\e, \a, \x41 ...)
+	// is a backslash and that letter; undefined escapes stay rejected whatever the letter
+	{`\\e`, `\e`, true}, {`C:\\etc\\hosts`, `C:\etc\hosts`, true}, {`\\a\\b\\f\\v\\x41\\u0041\\101`, `\a\b\f\v\x41\u0041\101`, true},
+	{`a\eb`, "", false}, {`\e`, "", false}, {`\c`, "", false}, {`\z`, "", false}, {`\#`, "", false},
 }
 
 // VH_C17_str: a double-quoted string whose body is a solver choice.
@@ -243,4 +247,58 @@ func VH_C17_float() {
 	rt.Assert(ok, "a float literal must parse")
 	fl, isF := n.(*ast.FloatLiteral)
 	rt.Assert(isF && fl.Value == want, "a float literal is the float nearest to the written decimal")
+}
+
+// ---------------------------------------------------------------- strings in context
+//
+// A quoted string is exactly its characters wherever it stands: the literal is followed by
+// further tokens on the same line (another string, an operator, a closing bracket), and the
+// text goes through the REAL lexer (token table and regular expressions) and parser in
+// every mode.  Bodies include ones that end in an escaped backslash or an escaped quote.
+
+var vStrCtxBodies = []struct{ src, want string }{
+	{`abc`, "abc"}, {``, ""}, {`a\\`, `a\`}, {`\\`, `\`}, {`a\\\\`, `a\\`}, {`a\"`, `a"`}, {`\"`, `"`}, {`a\\\"`, `a\"`},
+	{`a\nb`, "a\nb"}, {`é\\`, `é\`}, {`x\ty\\`, "x\ty\\"}, {`\\\\`, `\\`}, {`a\\n`, `a\n`},
+}
+
+var vStrCtx = []string{`LIT`, `LIT + "b"`, `[LIT, "c"]`, `[LIT]`, `f(LIT, "d")`, `LIT + 'e`, `{a: LIT, b: "f"}`}
+
+func vFirstStr(n ast.Node) (*ast.StrLiteral, bool) {
+	switch v := n.(type) {
+	case *ast.Program:
+		if len(v.Stmts) == 1 {
+			return vFirstStr(v.Stmts[0])
+		}
+	case *ast.ExprStmt:
+		return vFirstStr(v.Expr)
+	case *ast.StrLiteral:
+		return v, true
+	case *ast.InfixExpr:
+		return vFirstStr(v.Left)
+	case *ast.ArrLiteral:
+		if len(v.Elems) > 0 {
+			return vFirstStr(v.Elems[0])
+		}
+	}
+	return nil, false
+}
+
+func VH_C17_strctx() {
+	b := vStrCtxBodies[rt.Choice(len(vStrCtxBodies))]
+	ctx := vStrCtx[rt.Choice(4)] // contexts whose first string literal is found by vFirstStr
+	text := strings.Replace(ctx, "LIT", `"`+b.src+`"`, 1)
+	rt.Note(text)
+	n, err := Parse(NewReader(strings.NewReader(text), "h"))
+	rt.Assert(err == nil && n != nil, "a quoted string followed by other tokens on the same line must parse")
+	if err != nil || n == nil {
+		return
+	}
+	sl, ok := vFirstStr(n)
+	rt.Assert(ok && sl.Value == b.want, "a quoted string is exactly its characters with the documented escapes decoded, wherever it stands")
+	// the remaining contexts: the whole text must parse (the literal must not swallow what follows)
+	for _, c := range vStrCtx[4:] {
+		t2 := strings.Replace(c, "LIT", `"`+b.src+`"`, 1)
+		_, err2 := Parse(NewReader(strings.NewReader(t2), "h"))
+		rt.Assert(err2 == nil, "a quoted string followed by other tokens on the same line must parse")
+	}
 }
